@@ -623,7 +623,7 @@ def main(argv):
                        'Driver/C10.lean'],
         harness_name='c10', harness_sources=[os.path.join(C.VERIF, 'harness', 'c10.cpp')],
         gen_ops=gen_ops, monitor=monitor, nontrivial=nontrivial, extra_stage=extra_stage,
-        n_quick=(6, 8, 250, 250), n_thorough=(8, 8, 4000, 4000), search_factor=2,
+        n_quick=(8, 8, 250, 250), n_thorough=(8, 8, 4000, 4000), search_factor=2,
         trusted_base=[
             'Lean 4.33 kernel + Mathlib (axioms: propext, Classical.choice, Quot.sound)',
             'gen/cxxparse.py + gen/lean_emit.py + gen/gen_c10.py (translator: r_succ/r_pred, ring_head/tail, '
